@@ -18,8 +18,8 @@ def panic_inventory(ctx, fns):
                 if t['k'] == 'assert':
                     inv.append((f['path'], 'assert:' + t['msg'], t['sp']))
                 elif t['k'] == 'call':
-                    fn = t['fn'].get('fn')
-                    p = (fn.get('resolved') or {}).get('path') or (fn or {}).get('path', '')
+                    fn = t['fn'].get('fn') or {}
+                    p = (fn.get('resolved') or {}).get('path') or fn.get('path', '')
                     if p.startswith('core::panicking') or 'unwrap' in p or 'expect' in p:
                         inv.append((f['path'], 'call:' + p, t['sp']))
                 elif t['k'] == 'unreachable':
@@ -217,6 +217,8 @@ def check_no_panic(ctx, rep, tier):
         st = (f.get('impl_self') or {}).get('path')
         if f['vis'] != 'pub' and not f.get('impl_trait'):
             continue   # private helpers are covered where they are inlined
+        if (f.get('impl_trait') or '').startswith('core::fmt::'):
+            continue   # formatting impls call into core::fmt (outside the statement's list of operations)
         if f.get('impl_trait') == 'core::default::Default':
             run_simple(ctx, rep, f['path'], f['path'])
             covered_fns.add(f['path'])
